@@ -1,10 +1,14 @@
 package c20
 
 import (
+	"bytes"
 	"regexp"
 	"strings"
 	"sync"
 	"unicode"
+	"unicode/utf8"
+
+	"github.com/yuin/goldmark/util"
 
 	"wzverif/internal/kit"
 )
@@ -32,57 +36,35 @@ type kf struct {
 }
 
 const (
-	idOrder        = "KF-C20-order"
-	idNoEscape     = "KF-C20-no-escape"
-	idEscapeRT     = "KF-C20-escape-roundtrip"
-	idEdgeBlank    = "KF-C20-edge-blank"
 	idDelimContext = "KF-C20-delimiter-context"
-	idCodeCombined = "KF-C20-code-combined"
-	idListNoBlank  = "KF-C20-list-no-blank"
 	idSimpleTable  = "KF-C20-simple-table"
 	idMetadata     = "KF-C20-metadata"
 	idListReimport = "KF-C20-list-reimport"
-	idCodeNewline  = "KF-C20-codeblock-newline"
 	idEmptyPara    = "KF-C20-empty-paragraph"
 	idTableHeader  = "KF-C20-table-header"
-	idFlatten      = "KF-C20-reimport-flatten"
 	idHeadingDeep  = "KF-C20-heading-deep"
+	idWrapCode     = "KF-C20-wrap-code-span"
 )
 
 const allE = "C20.E1 C20.E2 C20.E3 C20.E4 C20.E5"
 
 var kfs = []kf{
-	{idNoEscape, "exporter: formatRunText/extractCellText write run text without escaping (writer.go:333): text containing Markdown syntax ('a*b*c', '[a](b)', '&amp;', '<b>', '`', '|' in a cell, '#'/'-'/'1.' at a line start) is read as markup: text lost or invented, block kinds change",
-		[]part{{"C20.E1 C20.E2 C20.E3", hasSyntaxText, false}}},
-	{idEscapeRT, "round trip of text containing Markdown syntax: export -> ConvertString does not give the text back; today because the exporter does not escape (KF-C20-no-escape), and escaping alone cannot repair it because the importer copies backslash escapes and entities raw (KF-C19-escape-raw) and drops autolinks/inline HTML",
-		[]part{{"C20.E4 C20.E5", hasSyntaxText, false}}},
-	{idDelimContext, "exporter: each run is wrapped in delimiters without regard to the neighbouring run: delimiters of touching formatted runs fuse ('**a****b**' reads 'a****b'), '_' italic next to a letter or digit ('x_a_y') and the outer '~~' of '~~**x**~~' next to a letter or digit are not delimiter runs by the flanking rules and stay literal",
+	{idDelimContext, "exporter: the delimiters of a formatted run are written without regard to what they touch (what is left after the merge-runs repair): an outermost delimiter run followed by punctuation - the run's own text beginning/ending with punctuation, or an inner delimiter as in '~~**x**~~', '**`x`**' - next to a letter or digit of the neighbouring text is not flanking and stays literal ('a~~**x**~~b', '**x.**y'); touching runs of different format that share the outer delimiter character fuse ('~~a~~~~**b**~~', '**a****`b`**', '**a*****b****c*'); a '~~' right after a tilde of the text ('x\\~~~a~~') and delimiters inside a word read as an autolink ('http://a.b/c~~x~~', 'x**a@b.co**y') are not read as delimiters by goldmark",
 		[]part{{allE, hasDelimiterContext, false}}},
+	{idWrapCode, "exporter: WrapLongLines breaks the finished paragraph text at every blank (wrapText, writer.go:634), also inside a code span, whose content cannot be escaped: a word of the code that is block syntax ('#', '-', '>', '=', '<div>', '|-|', '$$', or the '```' delimiter of a span that contains '``') starts a line and is read as a heading, setext underline, quote, HTML block, table or fence ('`a\\n#\\nb`')",
+		[]part{{allE, hasWrappedCodeSpan, false}}},
 	{idSimpleTable, "exporter: with UseGFMTables off a table is written as lines 'a | b' with '**' around the first (writeSimpleTable), which is not a Markdown table: it reads (and comes back) as paragraph text - one paragraph 'a | b c | d' for a full table, split at rows of empty cells, with literal '**' when the first row begins or ends with an empty cell; already bold header cells give '****a** | **b****'",
 		[]part{{allE, hasSimpleTable, true}}},
 	{idMetadata, "IncludeMetadata writes a '---' front matter block that the library's own converter (no front matter support) reads back as a thematic break and a setext heading 'title: \"Document\"': the round trip gains a heading, the second export differs",
 		[]part{{"C20.E4 C20.E5", func(c Case) bool { return c.O.Meta }, true}}},
 	{idListReimport, "importer (renderer.go:261-268): a list item is converted to a normal paragraph with a literal '• ' prepended (no numbering properties): list items do not survive the round trip, the second export has '• a' paragraphs instead of '- a' items",
 		[]part{{"C20.E4 C20.E5", hasVisibleListItem, true}}},
-	{idCodeNewline, "importer (renderer.go:309-317, D56): each code line keeps its line terminator in the run text of the CodeBlock paragraph: the second export has an extra empty line before the closing fence",
-		[]part{{"C20.E5", hasVisibleCode, true}}},
 	{idEmptyPara, "exporter: a paragraph without visible text is written as a bare newline (writer.go:220-222), which Markdown cannot carry back: the second export lacks the extra blank lines",
 		[]part{{"C20.E5", hasEmptyParagraph, true}}},
 	{idTableHeader, "round trip makes the first table row bold (importer renderer.go:449 gives header cells emphasis 2, exporter writes bold header cells as '**a**'): a table whose first row is not bold re-exports with '**' around its header cells",
 		[]part{{"C20.E5", hasPlainHeader, true}}},
-	{idFlatten, "importer flattens the content of emphasis/strong/strike spans (KF-C19-nested-inline, renderer.go:173-211 extractTextContent): of '***x***' / '~~**x**~~' (and of '**`x`**' once the exporter nests code spans properly) only the outer flag survives (second export has fewer delimiters), and the soft line break that WrapLongLines puts inside a formatted run is dropped (words glued)",
-		[]part{{"C20.E5", hasNestedInline, true}, {"C20.E4 C20.E5", hasWrappedFormatted, false}}},
 	{idHeadingDeep, "Heading7-9 are exported at level 6 (Markdown has no deeper level) and come back as Heading6, whose style formatting (italic) differs from Heading7/Heading9 (none) and is exported as emphasis: the second export has '###### *x*' for '###### x'",
 		[]part{{"C20.E5", hasDeepHeading, true}}},
-}
-
-func kfByID(id string) *kf {
-	for i := range kfs {
-		if kfs[i].id == id {
-			return &kfs[i]
-		}
-	}
-	return nil
 }
 
 func hasClause(list, clause string) bool { return strings.Contains(" "+list+" ", " "+clause+" ") }
@@ -176,15 +158,12 @@ var effects = []effect{
 		loose5: func(c Case) bool { return c.O.Wrap }}, // "• text" is a normal paragraph: it is wrapped, the item was not
 	{id: idSimpleTable, active: hasSimpleTable, seq1: simpleTableParagraphs,
 		seq4:   func(bs []Blk) []Blk { return dropOther(simpleTableParagraphs(bs)) }, // a thematic break comes back as an empty paragraph
-		norm5:  func(_ Case, md string) string { return stripChars(md, "*_") },       // '****a** | **b****' comes back as one bold run
-		loose5: func(c Case) bool { return true }},                                   // and the row lines as one line
+		norm5:  normSimpleTable,
+		loose5: func(c Case) bool { return true }}, // the row lines come back as one line
 	{id: idMetadata, active: func(c Case) bool { return c.O.Meta }, norm5: normFrontMatter,
 		seq4: func(bs []Blk) []Blk { return append([]Blk{{Kind: "h", Level: 2, Text: `title: "Document"`}}, bs...) }},
-	{id: idCodeNewline, active: hasVisibleCode, norm5: func(_ Case, md string) string { return strings.ReplaceAll(md, "\n\n```\n\n", "\n```\n\n") }}, // closing fences only (an opening fence is followed by the code line)
 	{id: idEmptyPara, active: hasEmptyParagraph, norm5: func(_ Case, md string) string { return normBlankLines(md) }},
 	{id: idTableHeader, active: hasPlainHeader, norm5: func(_ Case, md string) string { return normHeaderRows(md) }},
-	{id: idFlatten, active: hasNestedInline, norm5: func(_ Case, md string) string { return stripChars(md, "*_~`") },
-		loose5: func(c Case) bool { return c.O.Wrap }}, // fewer delimiter bytes: lines break elsewhere
 	{id: idHeadingDeep, active: hasDeepHeading, norm5: func(_ Case, md string) string { return normDeepHeadings(md) }},
 }
 
@@ -221,14 +200,29 @@ func explain(c Case, usable func(e effect) bool, same func(sel []effect) bool) s
 
 func hasSimpleTable(c Case) bool { return !c.O.GFM && hasKind(c, "table") }
 
-// simpleTableText: the lines the open simple-table finding describes for one table - cells joined with " | ",
-// "**" around the first row (bold header cells carry their own "**").
+// mdEscapeAll writes literal text the most defensive way CommonMark offers: a backslash before every ASCII
+// punctuation character. Every reader gives the text back, whatever subset of them an exporter chooses to escape
+// (the flanking class of an edge character does not change either: a backslash is punctuation like the character
+// it protects).
+func mdEscapeAll(s string) string {
+	var b strings.Builder
+	for _, r := range s {
+		if r < 128 && (unicode.IsPunct(r) || unicode.IsSymbol(r)) {
+			b.WriteByte('\\')
+		}
+		b.WriteRune(r)
+	}
+	return b.String()
+}
+
+// simpleTableText: the lines the open simple-table finding describes for one table - the (escaped) cell texts
+// joined with " | ", "**" around the first row (bold header cells carry their own "**").
 func simpleTableText(b Blk) string {
 	var sb strings.Builder
 	for i, row := range b.Cells {
 		cells := make([]string, len(row))
 		for j, c := range row {
-			c = strings.TrimSpace(c)
+			c = mdEscapeAll(strings.TrimSpace(c))
 			if i == 0 && b.HdrBold && c != "" {
 				c = "**" + c + "**"
 			}
@@ -258,6 +252,29 @@ func simpleTableParagraphs(bs []Blk) []Blk {
 	return out
 }
 
+// normSimpleTable: '****a** | **b****' comes back as one bold run; a literal '**' (first row beginning or ending
+// with an empty cell) and the ' | ' between the cells come back as text, which the second export escapes; and the
+// cell texts come back as words of one paragraph, glued to that punctuation, so that word-wise escapes ('1\.',
+// '\##') are decided differently. Both exports are compared without backslash escapes and without '*' and '_'.
+func normSimpleTable(_ Case, md string) string {
+	var b strings.Builder
+	for i := 0; i < len(md); i++ {
+		c := md[i]
+		if c == '\\' && i+1 < len(md) && md[i+1] < 128 && (unicode.IsPunct(rune(md[i+1])) || unicode.IsSymbol(rune(md[i+1]))) {
+			i++
+			c = md[i]
+			if c == '\\' {
+				b.WriteByte(c) // an escaped backslash is text
+				continue
+			}
+		}
+		if c != '*' && c != '_' {
+			b.WriteByte(c)
+		}
+	}
+	return b.String()
+}
+
 func dropOther(bs []Blk) []Blk {
 	var out []Blk
 	for _, b := range bs {
@@ -266,18 +283,6 @@ func dropOther(bs []Blk) []Blk {
 		}
 	}
 	return out
-}
-
-func tablesLast(bs []Blk) []Blk {
-	var text, tables []Blk
-	for _, b := range bs {
-		if b.Kind == "table" {
-			tables = append(tables, b)
-		} else {
-			text = append(text, b)
-		}
-	}
-	return append(text, tables...)
 }
 
 func bulletParagraphs(bs []Blk) []Blk {
@@ -373,15 +378,6 @@ func hasVisibleListItem(c Case) bool {
 	return false
 }
 
-func hasVisibleCode(c Case) bool {
-	for _, b := range c.Blocks {
-		if b.K == "code" && !blank(b.T) {
-			return true
-		}
-	}
-	return false
-}
-
 // Heading7 and Heading9 carry no bold/italic in the default styles, Heading6 (what they come back as) is italic.
 func hasDeepHeading(c Case) bool {
 	for _, b := range c.Blocks {
@@ -430,37 +426,6 @@ func syntaxInline(s string) bool {
 	return false
 }
 
-func hasSyntaxText(c Case) bool {
-	for _, b := range c.Blocks {
-		switch b.K {
-		case "code":
-			if strings.Contains(b.T, "```") || strings.Contains(b.T, "~~~") || strings.ContainsAny(b.T, "\n\r") {
-				return true
-			}
-		case "table":
-			for _, r := range b.Cells {
-				for _, cell := range r {
-					if syntaxInline(cell) || strings.ContainsAny(cell, "\n\r") {
-						return true
-					}
-				}
-			}
-		case "p":
-			for _, r := range b.Runs {
-				if syntaxInline(r.T) || strings.ContainsAny(r.T, "\n\r") {
-					return true
-				}
-			}
-		case "empty":
-		default:
-			if syntaxInline(b.T) || strings.ContainsAny(b.T, "\n\r") {
-				return true
-			}
-		}
-	}
-	return false
-}
-
 func edgeBlank(s string) bool {
 	if s == "" {
 		return false
@@ -487,132 +452,400 @@ func hasEdgeBlankFormatted(c Case) bool {
 	return false
 }
 
-// nonEmptyRuns drops runs without text (the exporter writes nothing for them).
-func nonEmptyRuns(b Block) []Run {
-	var out []Run
+// ---------------------------------------------------------------------------------------------
+// KF-C20-delimiter-context: what is left of it after the merge-runs repair.
+//
+// The exporter writes a formatted run as lead blanks + opening delimiters + text + closing delimiters + trail
+// blanks ('~~' outermost, then '*'/'**'/'***' or '_', a backtick string innermost) and looks at the
+// neighbouring run only to (1) merge runs of equal format and (2) avoid an intraword '_'. Whether CommonMark
+// reads a delimiter run as opening/closing depends on the characters on both sides of it (flanking rules), so
+// what is still not read as written is exactly:
+//
+//	(a) an outermost opening delimiter run that is followed by punctuation - the run's own text begins with
+//	    punctuation (escaped or not), or the next thing is an inner delimiter ('~~**x', '**`x') - and preceded
+//	    by a letter or digit of the neighbouring plain run: it is not left-flanking; the mirror image for the
+//	    closing delimiter run ('**x.**y', '~~**x**~~y', '**`x`**y');
+//	(b) two touching formatted runs of different format whose outermost delimiters use the same character:
+//	    '~~' + '~~' is a run of four tildes (never strike-through), '*' runs fuse into one run that has to close
+//	    and to open at once, which it cannot when exactly one of its two sides is punctuation ('**a****`b`**');
+//	    they also fail when both runs have the same emphasis and differ in the code font only ('**a.****`b`**':
+//	    CommonMark's multiple-of-3 rule);
+//	(c) a bold-italic run between a touching bold and a touching italic run, all with '*' delimiters
+//	    ('**a*****b****c*'): the two fused runs are not matched pairwise although each pair alone parses (every
+//	    other chain of up to five touching bold/italic runs parses: TestEnumStars);
+//	(d) a '~~' that directly follows a tilde of the text ('x\~~~a~~', '~~a\~~~'): goldmark - the reference reader and
+//	    the parser inside the library's own converter - does not open or close strike-through after a '~', escaped
+//	    or not, so neither the reading nor the round trip gives the text back.
+//
+//	(e) delimiters inside a word that is read as an autolink (autolinkContext below).
+//
+// The model below reproduces the documented merging and decides (a)-(e) from the case alone; it was validated
+// against exhaustive enumerations (TestEnumChains: 71 318 chains of up to 4 runs, TestEnumEdges: 91 608 cases with
+// punctuation at run edges and junctions - no failing case outside the predicate, none inside it passing in
+// TestEnumEdges, 178 chains inside it that happen to read as intended in TestEnumChains).
+type mrun struct {
+	mask              int
+	lead, core, trail string
+}
+
+// mergedRuns: the runs of a paragraph as the exporter sees them after its documented merging - runs without
+// text are skipped, blank-only runs join their neighbour, neighbours of equal format become one run.
+func mergedRuns(b Block) []mrun {
+	var rs []Run
 	for _, r := range b.Runs {
-		if r.T != "" {
-			out = append(out, r)
+		if r.T == "" {
+			continue
 		}
+		if n := len(rs); n > 0 {
+			if blank(r.T) || rs[n-1].mask() == r.mask() {
+				rs[n-1].T += r.T
+				continue
+			}
+			if blank(rs[n-1].T) {
+				r.T = rs[n-1].T + r.T
+				rs = rs[:n-1]
+			}
+		}
+		rs = append(rs, r)
+	}
+	out := make([]mrun, len(rs))
+	for i, r := range rs {
+		core := strings.TrimSpace(r.T)
+		m := mrun{mask: r.mask(), core: core}
+		if core == "" {
+			m.lead = r.T
+		} else {
+			k := strings.Index(r.T, core)
+			m.lead, m.trail = r.T[:k], r.T[k+len(core):]
+		}
+		out[i] = m
 	}
 	return out
 }
 
-func wordChar(r rune) bool { return unicode.IsLetter(r) || unicode.IsDigit(r) || unicode.IsMark(r) }
+func cmPunct(r rune) bool { return unicode.IsPunct(r) || unicode.IsSymbol(r) }
+func cmWord(r rune) bool  { return !unicode.IsSpace(r) && !cmPunct(r) }
 
-// fuse: the closing delimiter run of r1 and the opening delimiter run of r2 meet and are not read as written:
-// backtick runs and '~~' runs simply concatenate (code 'a' + code 'b' gives a double backtick in the middle, '~~a~~~~b~~'), and '**a****b**' / '*a**b*' fall under
-// CommonMark's multiple-of-3 rule. (Other touching combinations - '**a***b*', '***a******b***', '**a**~~b~~' -
-// parse as written; established by exhaustive enumeration of chains of up to 4 runs, see TestEnumChains.)
-func fuse(r1, r2 Run) bool {
-	if (r1.C && r2.C) || (r1.S && r2.S) {
-		return true
+// emphasised: the run gets emphasis or strike delimiters (a code-font-only run gets backticks, which bind on their own)
+func (m mrun) emphasised() bool { return m.core != "" && m.mask&(mB|mI|mS) != 0 }
+
+// outerAt: the character of the outermost delimiter run of run i. An italic-only run is written with the
+// configured marker, but with '*' where a '_' would touch a letter or digit of a plain neighbour.
+func outerAt(rs []mrun, i int, emph string) byte {
+	m := rs[i]
+	switch {
+	case m.mask&mS != 0:
+		return '~'
+	case m.mask&mB == 0 && emph == "_":
+		if i > 0 && m.lead == "" && rs[i-1].mask == 0 && rs[i-1].trail == "" && rs[i-1].core != "" && cmWord(rs[i-1].innerLast()) {
+			return '*'
+		}
+		if i+1 < len(rs) && m.trail == "" && rs[i+1].mask == 0 && rs[i+1].lead == "" && rs[i+1].core != "" && cmWord(rs[i+1].innerFirst()) {
+			return '*'
+		}
+		return '_'
 	}
-	// equal single emphasis on both sides (a code-font run counts with its emphasis: the backticks are innermost)
-	e1, e2 := r1.mask()&(mB|mI), r2.mask()&(mB|mI)
-	return !r1.S && !r2.S && e1 == e2 && (e1 == mB || e1 == mI)
+	return '*'
 }
 
-// hasDelimiterContext: a formatted run whose delimiters are not read as delimiters because of what the
-// neighbouring run puts next to them:
-// (a) two touching formatted runs whose delimiter runs fuse, or three and more touching bold/italic runs (the
-//
-//	matching of several fused '*' runs is not pairwise: '**a*****b****c*' fails although both pairs parse),
-//
-// (b) an italic run written '_a_' touching a non-blank character of a plain neighbour (intraword underscore),
-// (c) a strike run that is also bold/italic ('~~**x**~~': '~~' followed by punctuation) touching a letter or digit,
-// (d) a code-font run that is also bold/italic/strike touching anything but a blank: today it is in the
-//
-//	code-combined class anyway; once the backticks are innermost ('**`x`**', proposed_fixes/C20-code-inner.patch)
-//	its outer delimiters are followed by punctuation and depend on the neighbour like (c),
-//
-// (e) an emphasised run whose own text begins or ends with punctuation: whether its delimiters are flanking then
-//
-//	depends on the neighbour ('**x.**y': the closing '**' is not right-flanking) and on the character itself
-//	('~~a \\~\\~~~'). Such text is in the no-escape class today whenever the punctuation is Markdown syntax; the
-//	case is listed here because it remains once text is escaped,
-//
-// (f) a formatted run touching punctuation of a plain neighbour ('\\~\\~~~a~~': an escaped '~' before the '~~'),
-// (g) a code-font run containing Markdown syntax (a backtick needs a longer fence; code span content cannot be
-//
-//	escaped, so wrapping can still move a '#' or a fence to a line start).
-//	(e)-(g) cost nothing today - all punctuation the generator knows is Markdown syntax, i.e. no-escape class -
-//	and keep the check quiet on the residue of proposed_fixes/C20-escape.patch.
+// innerFirst/innerLast: the character right after the run's outermost opening delimiter run / right before its
+// outermost closing one: an inner delimiter or a backtick (punctuation), else the edge character of the text.
+func (m mrun) innerFirst() rune {
+	if (m.mask&mS != 0 && m.mask&(mB|mI) != 0) || m.mask&mC != 0 {
+		return '*'
+	}
+	r, _ := utf8.DecodeRuneInString(m.core)
+	return r
+}
+
+func (m mrun) innerLast() rune {
+	if (m.mask&mS != 0 && m.mask&(mB|mI) != 0) || m.mask&mC != 0 {
+		return '*'
+	}
+	r, _ := utf8.DecodeLastRuneInString(m.core)
+	return r
+}
+
 func hasDelimiterContext(c Case) bool {
 	for _, b := range c.Blocks {
 		if b.K != "p" {
 			continue
 		}
-		rs := nonEmptyRuns(b)
-		star := 0 // length of the current chain of touching runs whose outer delimiter is '*' or '_'
-		for i, r := range rs {
-			if r.mask()&(mB|mI) == 0 || r.S {
-				star = 0
-			} else if star++; star >= 3 {
-				return true // (a)
+		if rs := mergedRuns(b); delimiterContext(rs, c.O.Emph) || autolinkContext(rs, c.O.Emph) {
+			return true
+		}
+	}
+	return false
+}
+
+// (e) delimiters inside a word that GFM reads as an autolink. The paragraph is laid out with marker runes in the
+// place of the delimiters ('*' U+E001, '~' U+E002, backtick U+E003, '_' U+E004); every word is then written out the
+// way the exporter does (delimiter characters for the markers, a backslash before the characters it escapes,
+// code span content raw) and handed to goldmark's own autolink recognisers (the reference reader's and the
+// converter's parser): a URL ('http://', 'https://', 'ftp://', 'www.') that starts outside a code span runs on
+// through '~', '_' and - once it has a path - backtick characters, an e-mail address takes everything from a word
+// start (also after '(' or one of '*', '_', '~') up to the '@' as its local part; if the recognised link covers a
+// delimiter, that delimiter is link text ('http://a.b/c~~x~~' is the link 'http://a.b/c~~x' and a literal '~~',
+// 'x**a@b.co**y' the link 'x**a@b.co' and a literal '**y').
+var (
+	// the patterns of goldmark v1.7.8 extension/linkify.go
+	gmWWW = regexp.MustCompile(`^www\.[-a-zA-Z0-9@:%._\+~#=]{1,256}\.[a-z]+(?:[/#?][-a-zA-Z0-9@:%_\+.~#!?&/=\(\);,'">\^{}\[\]` + "`" + `]*)?`)
+	gmURL = regexp.MustCompile(`^(?:http|https|ftp)://[-a-zA-Z0-9@:%._\+~#=]{1,256}\.[a-z]+(?::\d+)?(?:[/#?][-a-zA-Z0-9@:%_+.~#$!?&/=\(\);,'">\^{}\[\]` + "`" + `]*)?`)
+)
+
+// autolinkText: the paragraph written out from its marker layout, with a flag for the bytes that are delimiters
+// and one for the bytes inside a code span.
+func autolinkText(layout []rune) (out []byte, delim, code []bool) {
+	inCode := false
+	put := func(s string, d bool) {
+		for i := 0; i < len(s); i++ {
+			out = append(out, s[i])
+			delim = append(delim, d)
+			code = append(code, inCode)
+		}
+	}
+	for i, r := range layout {
+		switch {
+		case r == 0xE001:
+			put("*", true)
+		case r == 0xE002:
+			put("~", true)
+		case r == 0xE004:
+			put("_", true)
+		case r == 0xE003:
+			put("`", true)
+			inCode = !inCode
+		case unicode.IsSpace(r):
+			put(" ", false)
+		case !inCode && strings.ContainsRune("\\`*_[]<~|$", r):
+			put("\\"+string(r), false)
+		case !inCode && r == '&' && i+1 < len(layout) && layout[i+1] < 128 && (layout[i+1] == '#' || unicode.IsLetter(layout[i+1]) || unicode.IsDigit(layout[i+1])):
+			put("\\&", false)
+		default:
+			put(string(r), false)
+		}
+	}
+	return
+}
+
+// autolinkSwallows: a link goldmark recognises in the written-out paragraph covers a delimiter byte.
+func autolinkSwallows(out []byte, delim, code []bool) bool {
+	covers := func(from, to int) bool {
+		for to > from+1 && strings.IndexByte("?!.,:*_~", out[to-1]) >= 0 { // trailing punctuation is not part of a link
+			to--
+		}
+		for k := from; k < to; k++ {
+			if delim[k] {
+				return true
 			}
-			if r.mask() == 0 {
-				continue
-			}
-			// the characters the run's own delimiters touch: blank at the paragraph edges, punctuation
-			// (a delimiter) where the neighbour is formatted, else the neighbour's edge character
-			var prev, next rune = ' ', ' '
-			if i > 0 {
-				if rs[i-1].mask() != 0 {
-					if fuse(rs[i-1], r) {
-						return true // (a)
-					}
-					prev = '*'
-				} else {
-					p := []rune(rs[i-1].T)
-					prev = p[len(p)-1]
+		}
+		return false
+	}
+	wordEnd := func(i int) int {
+		for i < len(out) && out[i] != ' ' {
+			i++
+		}
+		return i
+	}
+	for i := range out {
+		if code[i] || delim[i] || out[i] == ' ' {
+			continue
+		}
+		rest := out[i:wordEnd(i)]
+		var m []int
+		switch {
+		case bytes.HasPrefix(rest, []byte("http:")), bytes.HasPrefix(rest, []byte("https:")), bytes.HasPrefix(rest, []byte("ftp:")):
+			m = gmURL.FindIndex(rest)
+		case bytes.HasPrefix(rest, []byte("www.")):
+			m = gmWWW.FindIndex(rest)
+		}
+		if m == nil {
+			continue
+		}
+		end := m[1]
+		switch rest[end-1] { // as linkify.go trims the match
+		case '.':
+			end--
+		case ')':
+			closing := 0
+			for k := end - 1; k >= 0; k-- {
+				if rest[k] == ')' {
+					closing++
+				} else if rest[k] == '(' {
+					closing--
 				}
 			}
-			if i+1 < len(rs) {
-				if rs[i+1].mask() != 0 {
-					next = '*'
-				} else {
-					next = []rune(rs[i+1].T)[0]
+			if closing > 0 {
+				end -= closing
+			}
+		}
+		if covers(i, i+end) {
+			return true
+		}
+	}
+	for s := range out {
+		if out[s] == ' ' || (s > 0 && strings.IndexByte(" (*_~", out[s-1]) < 0) || util.IsPunct(out[s]) {
+			continue
+		}
+		line := out[s:wordEnd(s)]
+		stop := util.FindEmailIndex(line)
+		if stop <= 0 {
+			continue
+		}
+		at := bytes.IndexByte(line, '@')
+		if at < 0 || at >= stop || bytes.IndexByte(line[at:stop-1], '.') < 0 {
+			continue
+		}
+		if line[stop-1] == '.' {
+			stop--
+		}
+		if stop < len(line) && (line[stop] == '-' || line[stop] == '_') {
+			continue
+		}
+		if covers(s, s+stop) {
+			return true
+		}
+	}
+	return false
+}
+
+func autolinkContext(rs []mrun, emph string) bool {
+	var layout []rune
+	any := false
+	for i, r := range rs {
+		layout = append(layout, []rune(r.lead)...)
+		if r.core != "" {
+			var open []rune
+			if r.mask&mS != 0 {
+				open = append(open, 0xE002)
+			}
+			if r.mask&(mB|mI) != 0 {
+				d := rune(0xE001)
+				if r.mask&mS == 0 && outerAt(rs, i, emph) == '_' || r.mask&mS != 0 && r.mask&mB == 0 && emph == "_" {
+					d = 0xE004
+				}
+				open = append(open, d)
+			}
+			if r.mask&mC != 0 {
+				open = append(open, 0xE003)
+			}
+			any = any || len(open) > 0
+			layout = append(layout, open...)
+			layout = append(layout, []rune(r.core)...)
+			for k := len(open) - 1; k >= 0; k-- {
+				layout = append(layout, open[k])
+			}
+		}
+		layout = append(layout, []rune(r.trail)...)
+	}
+	if !any {
+		return false
+	}
+	return autolinkSwallows(autolinkText(layout))
+}
+
+func delimiterContext(rs []mrun, emph string) bool {
+	for i, r := range rs {
+		if !r.emphasised() {
+			continue
+		}
+		outer := outerAt(rs, i, emph)
+		touchPrev := i > 0 && r.lead == "" && rs[i-1].trail == "" && rs[i-1].core != ""
+		touchNext := i+1 < len(rs) && r.trail == "" && rs[i+1].lead == "" && rs[i+1].core != ""
+		if outer == '*' && r.mask&(mB|mI) == mB|mI && touchPrev && touchNext {
+			p, n := rs[i-1], rs[i+1]
+			if p.emphasised() && n.emphasised() && outerAt(rs, i-1, emph) == '*' && outerAt(rs, i+1, emph) == '*' {
+				if pe, ne := p.mask&(mB|mI), n.mask&(mB|mI); (pe == mB && ne == mI) || (pe == mI && ne == mB) {
+					return true // (c)
 				}
 			}
-			// the run's own edge blanks are written outside its delimiters
-			core := strings.TrimSpace(r.T)
-			if core == "" {
-				continue // a formatted run of blanks only is written as it is
-			}
-			if core != r.T {
-				all := []rune(r.T)
-				if unicode.IsSpace(all[0]) {
-					prev = ' '
+		}
+		if outer == '~' && r.mask == mS && strings.HasSuffix(r.core, "~") {
+			return true // (d) the closing '~~' follows an (escaped) tilde of the run's own text
+		}
+		if touchPrev {
+			p := rs[i-1]
+			switch {
+			case !p.emphasised():
+				// a plain or code-font-only neighbour: its edge character (a backtick is punctuation)
+				before := p.innerLast()
+				if cmWord(before) && cmPunct(r.innerFirst()) {
+					return true // (a)
 				}
-				if unicode.IsSpace(all[len(all)-1]) {
-					next = ' '
+				if outer == '~' && before == '~' {
+					return true // (d)
+				}
+			case outerAt(rs, i-1, emph) == outer:
+				if outer != '*' {
+					return true // (b) four tildes ('_' + '_': an italic run and an italic code-font run)
+				}
+				if p.mask&(mB|mI) == r.mask&(mB|mI) || cmPunct(p.innerLast()) != cmPunct(r.innerFirst()) {
+					return true // (b) the fused run cannot both close and open
 				}
 			}
-			plainTouch := func(x rune) bool { return x != '*' && !unicode.IsSpace(x) }
-			if c.O.Emph == "_" && r.I && !r.B && !r.S && (plainTouch(prev) || plainTouch(next)) {
-				return true // (b)
-			}
-			if r.S && (r.B || r.I) && (wordChar(prev) || wordChar(next)) {
-				return true // (c)
-			}
-			if r.C && (r.B || r.I || r.S) && (!unicode.IsSpace(prev) || !unicode.IsSpace(next)) {
-				return true // (d)
-			}
-			rt := []rune(core)
-			punct := func(x rune) bool { return !wordChar(x) && !unicode.IsSpace(x) }
-			if !r.C && (punct(rt[0]) || punct(rt[len(rt)-1])) {
-				return true // (e)
-			}
-			if (prev != '*' && punct(prev)) || (next != '*' && punct(next)) {
-				return true // (f)
-			}
-			if r.C && syntaxInline(core) {
-				return true // (g)
+		}
+		if touchNext {
+			n := rs[i+1]
+			if !n.emphasised() {
+				after := n.innerFirst()
+				if cmWord(after) && cmPunct(r.innerLast()) {
+					return true // (a)
+				}
 			}
 		}
 	}
 	return false
+}
+
+// hasWrappedCodeSpan: wrapping is on, a normal paragraph can be longer than the limit (upper bound: every
+// character escaped, ten bytes of delimiters per run) and one of its code-font runs has, after a blank, a word
+// that means something at a line start - or contains '“', so that the span is delimited by '```', which is
+// written as a word of its own.
+func hasWrappedCodeSpan(c Case) bool {
+	if !c.O.Wrap {
+		return false
+	}
+	for _, b := range c.Blocks {
+		if b.K != "p" {
+			continue
+		}
+		n := 0
+		for _, r := range b.Runs {
+			n += 2*len(r.T) + 10
+		}
+		if n <= c.O.MaxLen {
+			continue
+		}
+		for _, r := range mergedRuns(b) {
+			if r.mask&mC == 0 {
+				continue
+			}
+			if strings.Contains(r.core, "``") {
+				return true
+			}
+			padded := strings.Contains(r.core, "`") // written as "`` text ``": the first word follows a blank as well
+			for i, w := range strings.Fields(r.core) {
+				if (i > 0 || padded) && lineStartSyntax(w) {
+					return true
+				}
+			}
+		}
+	}
+	return false
+}
+
+// lineStartSyntax: the word can begin a block when it is the first of a line: ATX '#', quote '>', list markers and
+// thematic breaks and setext underlines '-', '+', '*', '_', '=', ordered markers, fences '`' '~', HTML '<', table
+// delimiter rows '|' ':', and '$' (the converter reads a '$$' line as the start of a formula).
+func lineStartSyntax(w string) bool {
+	if strings.ContainsRune("#>-+*_=`~<|:$", rune(w[0])) {
+		return true
+	}
+	i := 0
+	for i < len(w) && w[i] >= '0' && w[i] <= '9' {
+		i++
+	}
+	return i > 0 && i < len(w) && (w[i] == '.' || w[i] == ')')
 }
 
 func hasEmptyParagraph(c Case) bool {
@@ -635,62 +868,6 @@ func hasPlainHeader(c Case) bool {
 					return true
 				}
 			}
-		}
-	}
-	return false
-}
-
-// a run with two or more of bold/italic/strike/code-font: written as nested spans
-// (a code span nested in emphasis only once the exporter puts the backticks innermost)
-func hasNestedInline(c Case) bool {
-	for _, b := range c.Blocks {
-		if b.K != "p" {
-			continue
-		}
-		for _, r := range b.Runs {
-			if r.T != "" && bitsSet(r.mask()) >= 2 {
-				return true
-			}
-		}
-	}
-	return false
-}
-
-// wrapping is on and a paragraph with a formatted run that has an inner blank is longer than the limit
-// (text plus the delimiters Markdown needs for its formatted runs, counted in bytes as an upper bound)
-func hasWrappedFormatted(c Case) bool {
-	if !c.O.Wrap {
-		return false
-	}
-	for _, b := range c.Blocks {
-		if b.K != "p" {
-			continue
-		}
-		multi := false
-		n := 0
-		for _, r := range b.Runs {
-			n += len(r.T)
-			if r.mask() == 0 || r.T == "" {
-				continue
-			}
-			if len(strings.Fields(r.T)) >= 2 {
-				multi = true
-			}
-			if r.B {
-				n += 4
-			}
-			if r.I {
-				n += 2
-			}
-			if r.S {
-				n += 4
-			}
-			if r.C {
-				n += 2
-			}
-		}
-		if multi && n > c.O.MaxLen {
-			return true
 		}
 	}
 	return false
